@@ -35,6 +35,7 @@ type Inode struct {
 	Mtime  Value   // time.Time value
 	Synced int     // length known to be durable (tail-loss model)
 	Opens  int
+	cutDone bool
 }
 
 type FSEvent struct {
@@ -494,6 +495,7 @@ func init() {
 		if !ok {
 			panic(unsupported("os.OpenFile with symbolic flags"))
 		}
+		ex.crashPoint(fr, "openfile", nil, nil)
 		return ex.fsOpenFile(a[0], int(flags))
 	})
 	reg("os.Open", func(ex *Exec, fr *Frame, a []Value) Value {
@@ -503,6 +505,9 @@ func init() {
 		return ex.fsOpenFile(a[0], os.O_RDWR|os.O_CREATE|os.O_TRUNC)
 	})
 	reg("(*os.File).Write", func(ex *Exec, fr *Frame, a []Value) Value {
+		if h := fileH(a[0]); h != nil && !h.Closed && h.Inode != nil {
+			ex.crashPoint(fr, "write", h.Inode, bytesOf(a[1]))
+		}
 		return ex.fileWrite(fr, fileH(a[0]), bytesOf(a[1]))
 	})
 	reg("(*os.File).ReadAt", func(ex *Exec, fr *Frame, a []Value) Value {
@@ -533,6 +538,7 @@ func init() {
 		return Tuple{fileInfo(h.Inode, h.Path), Iface{}}
 	})
 	reg("(*os.File).Sync", func(ex *Exec, fr *Frame, a []Value) Value {
+		ex.crashPoint(fr, "sync", nil, nil)
 		h := fileH(a[0])
 		if h == nil || h.Closed {
 			return newErr("sync: file already closed", sentinel("file already closed"))
@@ -589,10 +595,17 @@ func init() {
 	reg("native:dirent.IsDir", func(ex *Exec, fr *Frame, a []Value) Value {
 		return mkBool(a[0].(*Native).Data.(*infoV).isDir)
 	})
-	reg("os.Remove", func(ex *Exec, fr *Frame, a []Value) Value { return ex.fsRemove(a[0]) })
-	reg("os.Rename", func(ex *Exec, fr *Frame, a []Value) Value { return ex.fsRename(a[0], a[1]) })
+	reg("os.Remove", func(ex *Exec, fr *Frame, a []Value) Value {
+		ex.crashPoint(fr, "remove", nil, nil)
+		return ex.fsRemove(a[0])
+	})
+	reg("os.Rename", func(ex *Exec, fr *Frame, a []Value) Value {
+		ex.crashPoint(fr, "rename", nil, nil)
+		return ex.fsRename(a[0], a[1])
+	})
 	reg("os.ReadDir", func(ex *Exec, fr *Frame, a []Value) Value { return ex.fsReadDir(strOf(a[0])) })
 	reg("os.MkdirAll", func(ex *Exec, fr *Frame, a []Value) Value {
+		ex.crashPoint(fr, "mkdirall", nil, nil)
 		d := filepath.Clean(strOf(a[0]))
 		fs := ex.fs()
 		for p := d; p != "/" && p != "."; p = filepath.Dir(p) {
@@ -604,6 +617,7 @@ func init() {
 		return Iface{}
 	})
 	reg("os.Chtimes", func(ex *Exec, fr *Frame, a []Value) Value {
+		ex.crashPoint(fr, "chtimes", nil, nil)
 		e := ex.fsLookup(a[0])
 		if e == nil {
 			return pathErr("chtimes", a[0], sentinel("file does not exist"))
@@ -621,9 +635,11 @@ func init() {
 		sh, dh := src.Data.(*FileH), dst.Data.(*FileH)
 		n := ex.concSize(sh.Inode, "copy")
 		if sh.Pos >= n {
+			ex.crashPoint(fr, "copy", nil, nil)
 			return Tuple{mkInt(0), Iface{}}
 		}
 		bs := append([]*term.T{}, sh.Inode.Data[sh.Pos:n]...)
+		ex.crashPoint(fr, "copy", dh.Inode, bs)
 		sh.Pos = n
 		r := ex.fileWrite(fr, dh, bs).(Tuple)
 		return Tuple{r[0], r[1]}
